@@ -1,7 +1,10 @@
 package main
 
 import (
+	"errors"
 	"os"
+
+	"github.com/rogpeppe/go-internal/cache"
 
 	"mvdan.cc/garble/internal/symx"
 )
@@ -23,7 +26,13 @@ func stubIO() {
 	symx.Stub("mvdan.cc/garble.appendListedPackages", func(pkgs []string, mainBuild bool) error { return nil })
 	symx.Stub("mvdan.cc/garble.saveSharedCache", func() (string, error) { return os.MkdirTemp("", "garble-shared") })
 	symx.Stub("mvdan.cc/garble.debugDirNeedsRebuild", func() (bool, error) { return false, nil })
+	if symx.Symbolic() {
+		// GARBLE_CACHE itself (rogpeppe/go-internal/cache) is not part of the model
+		openCache = func() (*cache.Cache, error) { return nil, errNoCacheModel }
+	}
 }
+
+var errNoCacheModel = errors.New("GARBLE_CACHE is not modelled")
 
 // H_C19_shared_cleanup: a command that fails before it created its shared
 // directory must not remove a GARBLE_SHARED directory it merely inherited
@@ -110,4 +119,35 @@ func H_C19_debugdir_owner() {
 		os.RemoveAll(d)
 	}
 	flagDebugDir = ""
+}
+
+// H_C19_tmp_clean: when -debugdir refuses its target the command fails, and
+// the shared temporary directory it had already created is gone from TMPDIR.
+func H_C19_tmp_clean() {
+	defer symx.FSCleanup()
+	stubIO()
+	root := symx.FSRoot()
+	tmp := root + "/tmp"
+	symx.FSMkdir(tmp)
+	symx.Setenv("TMPDIR", tmp)
+	symx.Setenv("GARBLE_SHARED", "")
+	symx.Setenv("GARBLE_CACHE", root+"/cache")
+	sharedTempDir, sharedCache = "", nil
+	dbg := root + "/dbg"
+	switch symx.Choose(3) {
+	case 0:
+		symx.FSWriteFile(dbg+"/notes.txt", "mine")
+	case 1:
+		symx.FSWriteFile(dbg+"/sub/keep.txt", "mine")
+	case 2:
+		symx.FSWriteFile(dbg, "mine")
+	}
+	flagDebugDir = dbg
+	err := mainErr([]string{"build", "./internal/asthelper"})
+	flagDebugDir = ""
+	symx.Reach("returned")
+	symx.Assert(err != nil, "the foreign debug directory is refused")
+	left := symx.FSList(tmp)
+	symx.Assert(len(left) == 0, "nothing of garble's is left in TMPDIR after the failure")
+	symx.Observe("left", len(left))
 }
